@@ -31,6 +31,7 @@
   predicates are NOT linearizable as single operations (known findings, replayed on the real code);
   `access_lists_match_source`, `model_accesses_follow_source` tie every method's access list to the source.
 -/
+import XMT.StateOwners
 import XMT.TieXlateState
 import XMT.StateLemmas
 import XMT.StateConcLemmas
@@ -748,5 +749,23 @@ theorem src_state_predicates (s : Nat) : State.predicates s =
 /-- … and the 16-bit `Last` field accessor likewise. -/
 theorem src_state_last (s : Nat) : Facts.x_c2_state_Last s = State.last s :=
   XMT.TieXlateState.x_c2_state_Last_eq s
+
+/-! ### which component may touch which flag (session 3; regenerated fact c13FuncMasks) -/
+
+/-- For every function of package c2 outside state.go, the union of the flag bits it may set and the
+union of the bits it may clear (regenerated from the current source on every run) are the reviewed
+ones. A function that starts clearing or setting a flag it did not touch before - e.g. a close path
+that also drops the channel-proxy flag, which only clientSet / clientClear own - changes its row;
+folding several calls into one with the same bits, or reordering them, does not. -/
+theorem flag_masks_as_reviewed : Facts.c13FuncMasks = StateOwners.reviewed := by decide
+
+/-- Consequence read off the regenerated table: the channel-proxy flag (the mirror of `s.chn != nil`)
+is set only by the two clientSet functions and cleared only by the two clientClear functions; the
+closed flag is set only by the shutdown / listen teardown paths and never cleared by anyone. -/
+theorem flag_owners :
+    StateOwners.setters Facts.c13FuncMasks 2048 = ["Listener.clientSet", "Proxy.clientSet"] ∧
+    StateOwners.clearers Facts.c13FuncMasks 2048 = ["Listener.clientClear", "Proxy.clientClear"] ∧
+    StateOwners.setters Facts.c13FuncMasks 4 = ["Listener.listen", "Proxy.listen", "Session.shutdown", "proxyClient.Close"] ∧
+    StateOwners.clearers Facts.c13FuncMasks 4 = [] := by decide
 
 end XMT.Props.C13
